@@ -17,7 +17,7 @@ sys.path.insert(0, '/verif')
 
 import numpy as np
 
-from vb import check, exprenv, exprreplay, par, rt, tlc
+from vb import check, exprenv, exprreplay, flagship, par, rt, tlc
 
 PID = 'C02'
 
@@ -26,7 +26,7 @@ def body(chk: check.Check):
     rt.setup(chk.seed)
     quick = chk.tier == 'quick'
     salt = (chk.seed + 17) % 9973
-    invs = ['GradSupport', 'HessSym', 'EmitInv']
+    invs = ['GradSupport', 'HessSym', 'TabAgrees', 'EmitInv']
     runs = []
     pool1 = exprenv.pool_mid() if quick else exprenv.pool_full()
     runs.append((pool1, 1, (1,), 0))
@@ -43,11 +43,29 @@ def body(chk: check.Check):
     chk.rule = ('differentiable DAGs emitted by TLC from ExprLang with their jets (value, gradient, Hessian as terms); '
                 'distinct = distinct canonical formulas with at least one free parameter; each is evaluated at 2 points x 3 rows '
                 'through every derivative entry point')
+    # deep formulas of the kind users estimate (mixed logit on cross-sectional and on panel data, 6-14 operators):
+    # proposed from outside (vb/flagship.py), accepted by the specification only if inside the domain (ProposalOK),
+    # expected values and jets computed by the specification bottom-up (ValTab / JetTab, which TabAgrees ties to
+    # the recursive definitions on the enumerated formulas above)
+    nprop = 25 if quick else 150
+    for panel in (False, True):
+        fpool = flagship.pool_panel() if panel else flagship.pool_cross()
+        runs.append((fpool, 0, flagship.proposals(chk.seed, nprop, panel), 0))
     nb = 0
     for pool, max_ops, thin, s in runs:
-        res = tlc.run('MCExprGen', pool.cfg(max_ops, invs, salt=s), extra_modules={'MCExprGen': pool.module(thin=thin)},
-                      workers='auto', timeout=2400)
-        chk.add_tlc(f'ExprLang {max_ops} operator(s), thin {thin}, salt {s}, {len(pool.leaves)} leaves', res)
+        if max_ops == 0:
+            res = tlc.run('MCExprGen', pool.cfg(0, ['EmitInv']), extra_modules={'MCExprGen': pool.module(start=thin)}, workers='auto', timeout=2400)
+            chk.add_tlc(f'ExprLang: {len(thin)} proposed mixed-logit formulas on {"panel" if pool.panel else "cross-sectional"} data', res)
+            chk.extra.setdefault('proposed_formulas', 0)
+            chk.extra['proposed_formulas'] += len(thin)
+            chk.extra.setdefault('proposed_formulas_accepted', 0)
+            chk.extra['proposed_formulas_accepted'] += len(res.emitted)
+            if len(res.emitted) < len(thin) // 2:
+                raise tlc.MachineryError(f'only {len(res.emitted)} of {len(thin)} proposed formulas were accepted by the specification')
+        else:
+            res = tlc.run('MCExprGen', pool.cfg(max_ops, invs, salt=s), extra_modules={'MCExprGen': pool.module(thin=thin)},
+                          workers='auto', timeout=2400)
+            chk.add_tlc(f'ExprLang {max_ops} operator(s), thin {thin}, salt {s}, {len(pool.leaves)} leaves', res)
         recs = [r for r in res.emitted if r['diff'] and r['freeocc']]
         chk.extra.setdefault('emitted_total', 0)
         chk.extra['emitted_total'] += len(res.emitted)
@@ -55,7 +73,7 @@ def body(chk: check.Check):
         chk.extra['not_differentiable_skipped'] += sum(1 for r in res.emitted if not r['diff'])
         exprreplay.init(pool)
         nl = len(pool.leaves)
-        results = par.pmap(exprreplay.replay_derivatives, recs, chunk=40)
+        results = par.pmap(exprreplay.replay_derivatives, recs, chunk=40 if max_ops else 2)
         for rec, (st, val) in zip(recs, results):
             desc = exprreplay.describe(rec)
             feats = exprenv.features(rec['ops'], rec['root'], nl)
@@ -77,7 +95,7 @@ def body(chk: check.Check):
         clean = [r for r in recs if not exprenv.features(r['ops'], r['root'], nl)]
         k = min(len(clean), 250 if quick else 2500)
         sub = [clean[i] for i in rng.choice(len(clean), size=k, replace=False)] if clean else []
-        results = par.pmap(exprreplay.replay_biogeme_derivatives, sub, chunk=20)
+        results = par.pmap(exprreplay.replay_biogeme_derivatives, sub, chunk=20 if max_ops else 2)
         for rec, (st, val) in zip(sub, results):
             desc = exprreplay.describe(rec)
             nb += 1
